@@ -267,7 +267,10 @@ int lha_input_stream_skip(LHAInputStream *stream, size_t bytes)
 
 			result = do_read(stream, data, len);
 
-			if (result < 0) {
+			// Error, or end of input before the requested
+			// number of bytes could be skipped?
+
+			if (result <= 0) {
 				return 0;
 			}
 
